@@ -1,0 +1,13 @@
+//go:build verif
+
+// Verification hooks: exported wrappers around unexported functions.
+// Compiled only with the build tag "verif"; adds no behaviour.
+package util
+
+func VerifProcessYaml(ruleId string, contents []byte) ([]byte, error) {
+	return NewTestRenumberer().processYaml(ruleId, contents)
+}
+
+func VerifFormatEndOfFile(lines [][]byte) [][]byte {
+	return NewTestRenumberer().formatEndOfFile(lines)
+}
